@@ -15,7 +15,7 @@
    on the implementation by harness/c03 on every run. *)
 From Coq Require Import ZArith List String Bool Permutation.
 From GSP Require Import Base.Prelude Value.Time Value.Model Value.Theory
-                        RDF.Model RDF.OrdSort RDF.Order RDF.OrdTree RDF.OrdSpell
+                        RDF.Model RDF.OrdSort RDF.Order RDF.OrdTree RDF.OrdSpell RDF.OrdLabels
                         SMT.Model SMT.Theory SMT.Sound.
 Import ListNotations.
 Open Scope Z_scope.
@@ -184,3 +184,55 @@ Theorem C03_spelling_dataset :
   entries_from_rdf F prime (relit_ds f ds) = entries_from_rdf F prime ds.
 Proof. exact spelling_invariance. Qed.
 Print Assumptions C03_spelling_dataset.
+
+(* (c), blank-node labels at the dataset level.  rn_ds rho renames every blank node (subject,
+   predicate, object and graph component of every quad) and every graph name by rho; IRIs and
+   literals are untouched and every quad keeps its position.  For EVERY dataset: if rho is
+   injective, fixes the two reserved graph names and is monotone for the byte-wise order ON THE
+   GRAPH NAMES of the dataset (so that iterGraphsOrdered visits corresponding graphs in the
+   same order), the outcome of EntriesFromRDF is literally unchanged: paths, values, datatypes,
+   order, error tag.  No condition on the order of the other labels is needed (quads are
+   addressed by position, children numbered by first appearance, labels otherwise only
+   compared for equality). *)
+Theorem C03_labels :
+  forall (rho : string -> string),
+  (forall a b, rho a = rho b -> a = b) ->
+  rho default_graph = default_graph -> rho ""%string = ""%string ->
+  forall (F : floats) (prime : Z) (ds : dataset),
+  (forall a b, In a (map fst ds) -> In b (map fst ds) ->
+               str_leb (rho a) (rho b) = str_leb a b) ->
+  entries_from_rdf F prime (rn_ds rho ds) = entries_from_rdf F prime ds.
+Proof. exact labels_invariance. Qed.
+Print Assumptions C03_labels.
+
+(* ... hence the same tree and root *)
+Theorem C03_labels_root :
+  forall (rho : string -> string),
+  (forall a b, rho a = rho b -> a = b) ->
+  rho default_graph = default_graph -> rho ""%string = ""%string ->
+  forall (H : hasher) (maxlev : nat) (q : Z) (F : floats) (mt : option tree) (ds : dataset),
+  (forall a b, In a (map fst ds) -> In b (map fst ds) ->
+               str_leb (rho a) (rho b) = str_leb a b) ->
+  merklize_tree H maxlev q F mt (rn_ds rho ds) = merklize_tree H maxlev q F mt ds.
+Proof. exact labels_tree. Qed.
+Print Assumptions C03_labels_root.
+
+(* the monotonicity hypothesis is necessary: an injective renaming that swaps two graph names
+   swaps the indices of the two children (witness: RDF.Order.ex_ds, RDF.OrdLabels.rho_swap) *)
+Theorem C03_labels_needs_monotone :
+  exists rho F prime ds,
+    (forall a b, rho a = rho b -> a = b) /\ rho default_graph = default_graph /\
+    rho ""%string = ""%string /\
+    entries_from_rdf F prime (rn_ds rho ds) <> entries_from_rdf F prime ds.
+Proof. exact labels_needs_monotone. Qed.
+Print Assumptions C03_labels_needs_monotone.
+
+(* so is injectivity (weakly monotone but merging two graph names) *)
+Theorem C03_labels_needs_injective :
+  exists rho F prime ds,
+    rho default_graph = default_graph /\ rho ""%string = ""%string /\
+    (forall a b, In a (map fst ds) -> In b (map fst ds) ->
+                 str_leb a b = true -> str_leb (rho a) (rho b) = true) /\
+    entries_from_rdf F prime (rn_ds rho ds) <> entries_from_rdf F prime ds.
+Proof. exact labels_needs_injective. Qed.
+Print Assumptions C03_labels_needs_injective.
